@@ -772,7 +772,11 @@ func (vc *VC) simple(st *State, f *Frame, ins ssa.Instruction) {
 		vc.setHeap(st, n, Store(h, r, T.Zero(T.ArrayOf(sortInt, es))))
 		f.regs[x] = mkSlice(r, IntLit(0), ln, cp)
 	case *ssa.MakeChan:
-		f.regs[x] = vc.newRef(st, "chan")
+		ch := vc.newRef(st, "chan")
+		// ghost: the capacity of every channel
+		cs := vc.heap(st, "CHCAP", vc.eng.st.ArrayOf(sortInt, sortInt))
+		vc.setHeap(st, "CHCAP", Store(cs, ch, vc.tv(st, f, x.Size)))
+		f.regs[x] = ch
 	case *ssa.MakeClosure:
 		c := &Closure{Fn: x.Fn.(*ssa.Function)}
 		for _, b := range x.Bindings {
